@@ -121,7 +121,7 @@ PROPS = {
         design_ref='DESIGN.md section 4 (U-DISP, U-SWT, U-OFF) and section 5 C16',
         level_text='Unbounded proof (Verus) that every operation of the real DisplacedTable (core-relations/src/uf/mod.rs: insert_impl, expand, '
                    'timestamp_bounds, eval, eval_constraint, fast_subset, get_row, get_row_column, merge, len, all, version, updates_since, clear) keeps the '
-                   'representation invariant (lookup_table is exactly the index of displaced, rows sorted by timestamp, displaced ids non-canonical, '
+                   'representation invariant (lookup_table is exactly the index of displaced, rows sorted by timestamp, the displaced ids are EXACTLY the non-canonical ids, '
                    'union-find well-formed) and agrees with the abstract view: a row is appended exactly when two classes are merged, fast_subset returns '
                    'EXACTLY the rows satisfying the constraint, timestamp range search returns exactly the rows with that timestamp. Built on the verified '
                    'UnionFind (same generated file, callers checked against its contracts). For SortedWritesTable (unit swt): binary_search_sort_val returns exactly the row range of the run '
@@ -141,7 +141,7 @@ PROPS = {
                    'by the unions performed, with the minimum id as representative, and path compression never changes it; (merge) an FD conflict on a constructor '
                    '(UnionId merge, container merge) stages exactly the union of the two ids and keeps the id the union-find will choose - lemma '
                    'lemma_unionid_matches_union_find ties the two contracts; (disp) a staged union row reaches the union-find unchanged, DisplacedTable reports the canonical '
-                   'id of every id (get_row_column col 1 = root) and records exactly the displaced id; Canonicalizer::rebuild_val maps every id to its root and Canonicalizer::rebuild_subset (the incremental table rebuild) returns every scanned row with the rebuilt columns canonical, marking exactly the already-canonical rows as untouched; (driver) get_canon_in_uf/get_canon_repr return the representative; rebuild runs to the fixpoint signalled by container rebuild, '
+                   'id of every id (get_row_column col 1 = root; get_row returns [k, root(k), ts] for a displaced k and None exactly when k is canonical) and records exactly the displaced id; Canonicalizer::rebuild_val maps every id to its root and Canonicalizer::rebuild_subset (the incremental table rebuild) returns every scanned row with the rebuilt columns canonical, marking exactly the already-canonical rows as untouched; (driver) get_canon_in_uf/get_canon_repr return the representative; rebuild runs to the fixpoint signalled by container rebuild, '
                    'table rebuild and row refresh whenever the union-find grew, on every exit path. "No equality is invented" is proved at the union-find level; '
                    '"none that follows is missed" is proved modulo the per-pass rebuild contract; of that contract the table side of the non-incremental rebuild is proved (unit tblrebuild: every reported row is staged as remove-old-key + insert-rebuilt-row), Canonicalizer::rebuild_subset/rebuild_val are proved (disp), the rest (rebuild_buf scan, incremental path, Database::apply_rebuild plumbing) is assumed.',
         level_note='Trusted: the per-pass rebuild contract of core-relations (apply_rebuild rewrites every row to canonical ids and merges congruent rows), '
